@@ -10,6 +10,7 @@ global size_of usize == 8;
 //@ include units/verbarg/part.rs
 //@ include units/lifecycle/helpers.rs
 //@ include units/lifecycle/part.rs
+//@ include units/lifecycle/listing.rs
 
 fn main() {}
 } // verus!
